@@ -1,6 +1,35 @@
 """Property -> rules map.  `quick` rules run in both tiers; `thorough` adds the rest."""
 
 PROPS = {
+    "C02": {
+        "quick": ["R-NET-ORDER", "R-ACCUMULATE", "R-SKIP-UNSEEDED", "R-COPY-FIRST", "R-SEED-ORDER"],
+        "thorough": [],
+        "technique": "static control-flow rules (must-pass-through, dominance, who-may-write) on the dispatch skeleton",
+        "claim": "Decides the skeleton of the induction behind C02 in core_objects.py for every path: Network runs "
+                 "responses forward and sensitivities in reverse over all modules in both the timed and the plain "
+                 "branch; the only writers of '.sensitivity' in the package are the Signal classes and the drivers' "
+                 "seeding sites, every module contribution goes through add_sensitivity (first contribution stored "
+                 "fresh under the is-None test, all others accumulated), input k receives result k, unseeded "
+                 "modules and None contributions are skipped. Correctness of each module's own adjoint (numeric) is "
+                 "not decided here.",
+        "explanation": "CFG rules over Network.response/sensitivity/reset, Module.response/sensitivity, "
+                       "AutoMod.sensitivity, Signal/SignalSlice.add_sensitivity plus a package-wide table of every "
+                       "store to a '.sensitivity' attribute.",
+    },
+    "C18": {
+        "quick": ["R-COPY-FIRST", "R-ACCUMULATE", "R-SLICE-SIB", "R-RESET"],
+        "thorough": [],
+        "technique": "static alias analysis, typestate over the CFG of reset(), sibling agreement of accessors",
+        "claim": "Decides the structural clauses of C18: the first contribution stored by add_sensitivity never aliases "
+                 "the argument; all later contributions accumulate; every SignalSlice accessor reaches the base only "
+                 "through [self.slice] on the matching attribute and creates a missing base sensitivity as zeros of "
+                 "the base state; on every exit of Signal.reset the sensitivity is None or zero-filled in place and "
+                 "SignalSlice.reset clears only through its own slice. Equivalence with array semantics over "
+                 "arbitrary histories (numeric) is not decided.",
+        "explanation": "Alias analysis of add_sensitivity, typestate of Signal.reset over all paths including the "
+                       "exception edges of its nested try blocks, and an agreement check over the SignalSlice "
+                       "accessors.",
+    },
     "C04": {
         "quick": ["R-EFF-SEED", "R-EFF-STATE", "R-EFF-RESP", "R-EFF-SELF", "R-STATE-WRITERS"],
         "thorough": [],
